@@ -1009,9 +1009,16 @@ def r04j(rep, F):
         if not f.body or '/planners/' not in f.file or not f.file.endswith('.cpp'):
             continue
         blocks = []
-        for blk in [x for x in f.walk() if x['k'] == 'CompoundStmt']:
+        # a block = the statements of a compound statement, or the single unbraced statement that is the body of an if / else / loop
+        cands = [(x, x['ch']) for x in f.walk() if x['k'] == 'CompoundStmt']
+        for x in f.walk():
+            for slot in ('then', 'else', 'body'):
+                b = x.get(slot)
+                if b and x['k'] in ('IfStmt', 'WhileStmt', 'ForStmt', 'DoStmt', 'CXXForRangeStmt') and (f.nodes.get(b) or {}).get('k') != 'CompoundStmt':
+                    cands.append((f.nodes[b], [b]))
+        for blk, stmts in cands:
             tg = {}
-            for cid in blk['ch']:
+            for cid in stmts:
                 y = f.strip(cid)
                 if y is None:
                     continue
@@ -1020,12 +1027,18 @@ def r04j(rep, F):
                     t = f.strip(y['ch'][0])
                 elif y['k'] == 'CXXOperatorCallExpr' and y.get('oop') == '=' and len(y['ch']) == 2:
                     t = f.strip(y['ch'][0])
+                elif y['k'] == 'DeclStmt':
+                    # an initialised declaration is the first assignment of the variable
+                    for d in y.get('decls', []):
+                        if d.get('init'):
+                            tg['%s#%d' % (d['name'], d['did'])] = (d.get('ty') or '')
                 if t is not None and (t['k'] == 'DeclRefExpr' or (t['k'] == 'MemberExpr' and t['ch'] and (f.strip(t['ch'][0]) or {}).get('k') == 'CXXThisExpr')):
                     tg[f.fp(t['id'])] = (t.get('ty') or '')
             if tg:
                 blocks.append((blk, tg))
         costs = {k for _, tg in blocks for k, ty in tg.items() if re.search(r'Cost$|^(const )?double$', ty)}
-        items = {k for _, tg in blocks for k, ty in tg.items() if re.search(r'Motion|Vertex|State', ty) and ('*' in ty or 'shared_ptr' in ty or 'Ptr' in ty)}
+        items = {k for _, tg in blocks for k, ty in tg.items() if (re.search(r'Motion|Vertex|State|Path', ty) and ('*' in ty or 'shared_ptr' in ty or 'Ptr' in ty))
+                 or ty.replace('const ', '').strip() in ('bool', '_Bool')}
         # running bounds: variables that some condition compares a candidate against (second argument of isCostBetterThan, right side of <)
         bounds = set()
         for x in f.walk():
@@ -1044,6 +1057,10 @@ def r04j(rep, F):
             for blk, tg in blocks:
                 if c not in tg:
                     continue
+                if blk['k'] == 'DeclStmt' or (c.split('#')[0] + '#') in c and any(
+                        y is not None and y['k'] == 'DeclStmt' and any('%s#%d' % (d['name'], d['did']) == c for d in y.get('decls', []))
+                        for y in [f.strip(cid) for cid in (blk['ch'] if blk['k'] == 'CompoundStmt' else [blk['id']])]):
+                    continue        # the declaring block only nominates partners
                 n += 1
                 ok = bool(partners & set(tg))
                 rep.add('R04j', f.name, 'cost-with-item[%s]#%d' % (nofp(c), f.line(blk)), ok, f.where(blk),
@@ -1051,6 +1068,232 @@ def r04j(rep, F):
                         '%s is assigned in this block without %s, which accompanies it in the other %d blocks: the reported node and the reported '
                         'cost come apart' % (nofp(c), ' / '.join(sorted(nofp(p) for p in partners)), len([1 for _, t2 in blocks if c in t2]) - 1))
     rep.require_count('R04j', 'cost updates paired with their item', n, 8)
+
+
+def _cost_origins(f, nid, guards=(), depth=0, subst=None):
+    """leaves a cost expression is computed from: [('mc', a_fp, b_fp, guards) | ('other', fp, guards)];
+    looks through locals (every definition, with the if-conditions that guard it) and vector elements stored in the function"""
+    subst = subst or {}
+
+    def sub(fp):
+        for a, b in subst.items():
+            fp = fp.replace(a, b)
+        return fp
+    n = f.strip(nid)
+    if n is None or depth > 5:
+        return [('other', '?', guards)]
+    if n.get('callee', '').endswith('::motionCost') and len(args(f, n)) == 2:
+        a = args(f, n)
+        return [('mc', sub(f.fp(a[0])), sub(f.fp(a[1])), guards)]
+    if n['k'] == 'CXXConstructExpr' and len(n['ch']) == 1:
+        return _cost_origins(f, n['ch'][0], guards, depth, subst)
+
+    def enclosing_guards(x):
+        gs = []
+        cur = x['id']
+        while cur in f.parent:
+            p_ = f.nodes[f.parent[cur]]
+            if p_['k'] == 'IfStmt':
+                if p_.get('then') == cur:
+                    gs.append((f.fp(p_['cond']), True))
+                elif p_.get('else') == cur:
+                    gs.append((f.fp(p_['cond']), False))
+            cur = p_['id']
+        return tuple(gs)
+    if n['k'] == 'DeclRefExpr' and n.get('dk') == 'Local':
+        k = '%s#%d' % (n['name'], n['did'])
+        out = []
+        for x in f.walk():
+            if x['k'] == 'DeclStmt':
+                for d in x.get('decls', []):
+                    if '%s#%d' % (d['name'], d['did']) == k and d.get('init'):
+                        ini = f.strip(d['init'])
+                        if ini is not None and ini['k'] == 'CXXConstructExpr' and not ini['ch']:
+                            continue
+                        out += _cost_origins(f, d['init'], guards + enclosing_guards(x), depth + 1, subst)
+            elif ((x['k'] == 'BinaryOperator' and x.get('op') == '=') or (x['k'] == 'CXXOperatorCallExpr' and x.get('oop') == '=' and len(x['ch']) == 2)) \
+                    and key(f, x['ch'][0]) == k:
+                out += _cost_origins(f, x['ch'][1], guards + enclosing_guards(x), depth + 1, subst)
+        return out or [('other', sub(f.fp(nid)), guards)]
+    if n['k'] == 'CXXOperatorCallExpr' and n.get('oop') == '[]' and len(n['ch']) == 2 and key(f, n['ch'][0]):
+        arr = key(f, n['ch'][0])
+        idx = f.fp(n['ch'][1])
+        out = []
+        for x in f.walk():
+            if (x['k'] == 'BinaryOperator' and x.get('op') == '=') or (x['k'] == 'CXXOperatorCallExpr' and x.get('oop') == '=' and len(x['ch']) == 2):
+                t = f.strip(x['ch'][0])
+                if t is not None and t['k'] == 'CXXOperatorCallExpr' and t.get('oop') == '[]' and len(t['ch']) == 2 and key(f, t['ch'][0]) == arr:
+                    j = f.fp(t['ch'][1])
+                    s2 = dict(subst)
+                    if j != idx:
+                        s2[j] = sub(idx)
+                    out += _cost_origins(f, x['ch'][1], guards + enclosing_guards(x), depth + 1, s2)
+        return out or [('other', sub(f.fp(nid)), guards)]
+    return [('other', sub(f.fp(nid)), guards)]
+
+
+def r04l(rep, F):
+    rep.rule('R04l', 'orientation of stored edge costs: where a tree node X gets parent P and incremental cost I in one block (the sites of '
+                     'R04f), every motionCost(a, b) that I can originate from -- through locals, every one of their definitions, and vector '
+                     'elements stored in the same function with the index renamed -- is the cost of the motion P -> X (a = P->state, b = '
+                     'X->state); the cost of the reverse motion X -> P is accepted only on a definition guarded by the objective\'s '
+                     'isSymmetric() verdict.  With an asymmetric objective a reversed edge cost is propagated to every descendant by '
+                     'updateChildCosts and the stored solution cost drops below the true cost of the path')
+    recs = {name for name, rs in F.records.items() if {'parent', 'cost', 'incCost'} <= {fl['name'] for fl in rs[0].get('fields', [])}}
+    n = 0
+    for f in F.functions:
+        if not f.body or '/planners/' not in f.file:
+            continue
+        symvars = set()
+        for x in f.walk():
+            if x['k'] == 'DeclStmt':
+                for d in x.get('decls', []):
+                    if d.get('init') and 'isSymmetric' in f.fp(d['init']):
+                        symvars.add('%s#%d' % (d['name'], d['did']))
+        for x in f.walk():
+            if x['k'] != 'BinaryOperator' or x.get('op') != '=':
+                continue
+            t = f.strip(x['ch'][0])
+            if t is None or t['k'] != 'MemberExpr' or t.get('name') != 'parent' or (t.get('q') or '').rsplit('::', 1)[0] not in recs:
+                continue
+            r = f.strip(x['ch'][1])
+            if r is None or r['k'] in ('CXXNullPtrLiteralExpr', 'GNUNullExpr'):
+                continue
+            X, Pn = f.fp(t['ch'][0]), f.fp(x['ch'][1])
+            blk = next((a for a in f.ancestors(x['id']) if a['k'] == 'CompoundStmt'), None)
+            if blk is None:
+                continue
+            inc = None
+            for cid in blk['ch']:                      # side by side: statements of the same block
+                y = f.strip(cid)
+                if y is None:
+                    continue
+                if (y['k'] == 'BinaryOperator' and y.get('op') == '=') or (y['k'] == 'CXXOperatorCallExpr' and y.get('oop') == '=' and len(y['ch']) == 2):
+                    ty = f.strip(y['ch'][0])
+                    if ty is not None and ty['k'] == 'MemberExpr' and ty.get('name') == 'incCost' and f.fp(ty['ch'][0]) == X:
+                        inc = y
+            if inc is None:
+                continue
+            n += 1
+            role = 'edge-cost-orientation@%s#%d' % (re.sub(r'#\d+', '', X), len([1 for o in rep.obl if o['rule'] == 'R04l' and o['function'] == f.name]))
+            leaves = _cost_origins(f, inc['ch'][1])
+            bad = None
+            fwd = rev = other = 0
+            for lf in leaves:
+                if lf[0] != 'mc':
+                    other += 1
+                    continue
+                a, b, gs = lf[1], lf[2], lf[3]
+                if (a, b) == (Pn + '.state', X + '.state'):
+                    fwd += 1
+                elif (a, b) == (X + '.state', Pn + '.state'):
+                    sym = any(pol and (any(v in g for v in symvars) or 'isSymmetric' in g) and '!' not in g[:2] for g, pol in gs)
+                    if sym:
+                        rev += 1
+                    else:
+                        bad = 'the incremental cost stored for %s can be motionCost(%s, %s): the cost of the motion from the child to its ' \
+                              'new parent, not guarded by isSymmetric()' % (nofp(X), nofp(a), nofp(b))
+                else:
+                    other += 1
+            rep.add('R04l', f.name, role, bad is None, f.where(inc), bad or
+                    '%d origin(s) are the cost of parent -> child, %d reversed under the symmetry guard, %d not followed' % (fwd, rev, other))
+    rep.require_count('R04l', 'edge-cost stores next to a parent change', n, 4)
+
+
+def _then_guards(f, nid):
+    """conditions of the enclosing if statements whose then-branch contains the node, innermost first"""
+    out = []
+    cur = nid
+    while cur in f.parent:
+        p_ = f.nodes[f.parent[cur]]
+        if p_['k'] == 'IfStmt' and p_.get('then') is not None and any(z['id'] == cur for z in f.walk(p_['then'])):
+            out.append(p_['cond'])
+        cur = p_['id']
+    return out
+
+
+def _expand(f, nid, depth=0):
+    """fingerprint of a cost expression with single-definition locals replaced by their initialisers"""
+    fp = f.fp(nid)
+    if depth > 3:
+        return fp
+    for x in f.walk(nid):
+        if x['k'] == 'DeclRefExpr' and x.get('dk') == 'Local' and re.search(r'Cost', x.get('ty') or ''):
+            k = '%s#%d' % (x['name'], x['did'])
+            defs = [d['init'] for y in f.walk() if y['k'] == 'DeclStmt' for d in y.get('decls', []) if '%s#%d' % (d['name'], d['did']) == k and d.get('init')]
+            if len(defs) == 1:
+                fp = fp.replace(k, '[' + k + ':=' + _expand(f, defs[0], depth + 1) + ']')
+    return fp
+
+
+def r04m(rep, F):
+    rep.rule('R04m', 'rewiring is decided on the true edge cost: in the forward searches of BIT* / ABIT*, AIT* and EIT* the statement that '
+                     'links a vertex to a (new) parent with edge cost C -- addEdge(edge, C), setForwardParent(parent, C), setEdgeCost(C) + '
+                     'setCurrentCostToCome(T) -- lies in the then-branch of a comparison isCostBetterThan(L, R) in which R is the child\'s '
+                     'current cost-to-come and L combines the parent\'s current cost-to-come with that same C (locals expanded to their '
+                     'definitions).  A guard built from the heuristic edge cost admits edges that make the vertex -- and the goal, hence '
+                     'the reported best cost -- worse')
+    G_ = 'ompl::geometric::'
+    SITES = [
+        (G_ + 'BITstar::iterate', G_ + 'BITstar::addEdge', 1, 'getCost', lambda f, c: (_pfp(f, args(f, c)[0]) + '.first', _pfp(f, args(f, c)[0]) + '.second')),
+        (G_ + 'AITstar::iterateForwardSearch', G_ + 'aitstar::Vertex::setForwardParent', 1, 'getCostToComeFromStart',
+         lambda f, c: (_pfp(f, args(f, c)[0]), _pfp(f, c['ch'][0]))),
+        (G_ + 'EITstar::iterateForwardSearch', G_ + 'eitstar::Vertex::setEdgeCost', 0, 'getCurrentCostToCome', None),
+    ]
+    n = 0
+    for fname, callee, ci, acc, pc in SITES:
+        fs = [x for x in F.by_name.get(fname, []) if x.body]
+        if not fs:
+            raise AnalysisBroken('R04m: %s vanished' % fname)
+        f = fs[0]
+        sites = [c for c in f.walk() if c.get('callee') == callee]
+        if not sites:
+            raise AnalysisBroken('R04m: %s no longer calls %s' % (fname, callee))
+        for c in sites:
+            C = key(f, args(f, c)[ci])
+            if C is None:
+                raise AnalysisBroken('R04m: edge cost argument of %s is not a variable' % callee)
+            n += 1
+            if pc is not None:
+                par, chi = pc(f, c)
+            else:
+                # EIT*: the forward vertices were obtained from edge.source / edge.target
+                ev = [key(f, args(f, x)[0]) for x in f.walk() if x.get('callee') == G_ + 'EITstar::isValid']
+                e = ev[0] if ev else None
+                par, chi = (e + '.source', e + '.target') if e else (None, None)
+            ok = False
+            seen = []
+            for g in _then_guards(f, c['id']):
+                for b in f.walk(g):
+                    if b.get('callee') in BETTER and len(args(f, b)) == 2:
+                        L, R = _expand(f, args(f, b)[0]), f.fp(args(f, b)[1])
+                        seen.append((nofp(L)[:160], nofp(R)[:80]))
+                        r_ok = acc in R and chi is not None and chi in R
+                        l_ok = C in L and acc in L and par is not None and par in L and 'euristic' not in L.split(C)[0][-60:]
+                        if r_ok and l_ok:
+                            ok = True
+            rep.add('R04m', f.name, 'rewire-guard-uses-stored-cost[%s]' % nofp(C), ok, f.where(c),
+                    'guarded by better(parent cost-to-come + %s, child cost-to-come)' % nofp(C) if ok else
+                    'no enclosing comparison has the child\'s current cost-to-come on the right and parent cost-to-come combined with the '
+                    'stored edge cost %s on the left (comparisons found: %s): the link can make the vertex worse' % (nofp(C), seen[:3]))
+    rep.require_count('R04m', 'rewiring sites of the informed trees', n, 3)
+
+
+def _pfp(f, nid):
+    """fingerprint of a vertex expression, looking through shared_ptr::operator-> and implicit conversions"""
+    n_ = f.strip(nid)
+    for _ in range(5):
+        if n_ is None:
+            return '?'
+        if n_['k'] == 'CXXOperatorCallExpr' and n_.get('oop') in ('->', '*') and n_['ch']:
+            n_ = f.strip(n_['ch'][0])
+            continue
+        if n_['k'] in ('CXXConstructExpr', 'ImplicitCastExpr') and len(n_['ch']) == 1:
+            n_ = f.strip(n_['ch'][0])
+            continue
+        break
+    vs = [x for x in f.walk(n_['id']) if x['k'] == 'DeclRefExpr' and x.get('dk') in ('Local', 'Parm')]
+    return f.fp(n_['id']) if n_['k'] in ('DeclRefExpr', 'MemberExpr') or not vs else '%s#%d' % (vs[0]['name'], vs[0]['did'])
 
 
 def r04k(rep, F):
@@ -1122,3 +1365,5 @@ def run(rep):
     r04i(rep, F)
     r04j(rep, F)
     r04k(rep, F)
+    r04l(rep, F)
+    r04m(rep, F)
